@@ -81,8 +81,9 @@ let parse_op ?(npv = false) (s : string) : c20_op * bool =
   | "new" when !float_mode && List.mem t.(2) ["np"; "nprev"; "npstride"; "array"; "npcol"; "memview"; "npint"] -> C20_NewBadBuffer (false, nat_of_int 1), false
   | "new" when !float_mode && List.mem t.(2) ["npf32"; "nprev32"] -> C20_New (r 1, ql 3), false
   | "crossbad" -> C20_NewBadBuffer (false, nat_of_int 1), false
-  | "new" when List.mem t.(2) ["npint"; "npf32"; "bytearray"; "arrayi"] -> C20_NewBadBuffer (false, nat_of_int 1), false
-  | "new" when t.(2) = "np2d" -> C20_NewBadBuffer (true, nat_of_int 2), false
+  | "new" when List.mem t.(2) ["npint"; "npf32"; "bytearray"; "arrayi"; "npbe"; "bytes"; "arrayf"] -> C20_NewBadBuffer (false, nat_of_int 1), false
+  | "new" when t.(2) = "np2d" || t.(2) = "npro2d" -> C20_NewBadBuffer (true, nat_of_int 2), false
+  | "new" when t.(2) = "np0d" -> C20_NewBadBuffer (true, nat_of_int 0), false
   | "newfrom" -> C20_NewFromBuf (r 1, r 2), false       (* FieldVector_n( R[r] ) through the buffer constructor *)
   | "new" -> C20_New (r 1, ql 3), false
   | "setslicefrom" -> C20_SetSliceFrom (r 1, optz t.(2), optz t.(3), optz t.(4), r 5), true
@@ -158,6 +159,35 @@ let parse_op ?(npv = false) (s : string) : c20_op * bool =
   | "norm22" -> C20_Norm22 (r 1), false
   | "norminf" -> C20_NormInf (r 1), false
   | x -> raise (Bad_op x)
+
+(* seeding round 6: the exporter dimension.  `nx <kind> r <access>` = the access through a NumPyVector wrapped around a fresh
+   EXPORTER of the memory of register r (kind: w, warr = writable; ro, romv, rob, robc = read-only, one-dimensional; ro2d =
+   read-only, two-dimensional); `newfromx <kind> n r` = FieldVector_n( exporter of R[r] ) (w, ro, romv; rof32 = another format;
+   ro2d); `addro r s` ... = the ordinary op with a read-only exporter of R[s] as operand (the conversion copies). *)
+let export_of_kind (k : string) : c20_export =
+  let mk ro fok nd = { c20_ex_readonly = ro; c20_ex_format_ok = fok; c20_ex_ndim = nat_of_int nd } in
+  match k with
+  | "w" | "warr" -> mk false true 1
+  | "ro" | "romv" | "rob" | "robc" -> mk true true 1
+  | "ro2d" -> mk true true 2
+  | "rof32" -> mk true false 1
+  | x -> raise (Bad_op ("export kind " ^ x))
+let parse_xop ?(npv = false) (s : string) : c20_xop * bool =
+  let t = Array.of_list (List.filter (fun x -> x <> "") (String.split_on_char ' ' s)) in
+  let r k = nat_of_int (int_of_string t.(k)) in
+  match t.(0) with
+  | "nx" ->
+      let acc = match t.(3) with
+        | "len" -> C20_ALen | "get" -> C20_AGet (r 4) | "set" -> C20_ASet (r 4, q_of_string t.(5))
+        | "imuls" -> C20_AIMulS (q_of_string t.(4)) | "iadds" -> C20_AIAddS (q_of_string t.(4)) | "norm22" -> C20_ANorm22
+        | x -> raise (Bad_op x) in
+      C20_NOnExport (export_of_kind t.(1), r 2, acc), true
+  | "newfromx" -> C20_NewFromExport (export_of_kind t.(1), r 2, r 3), false
+  | "addro" | "subro" | "dotro" | "eqro" | "iaddro" | "isubro" | "assignro" ->
+      let base = String.sub t.(0) 0 (String.length t.(0) - 2) in
+      let (op, _) = parse_op ~npv (base ^ " " ^ t.(1) ^ " " ^ t.(2)) in
+      C20_X op, c20_mutating op
+  | _ -> let (op, _) = parse_op ~npv s in C20_X op, c20_mutating op
 
 (* `tv ; f 17 ; v 2,2 ; i 5`: the TupleVector scenario of harness/C20/impl.py (tv_case) on the extracted tuple model *)
 let tv_show = function
@@ -261,13 +291,12 @@ let () =
         let npv = (head = "npv") in
         float_mode := (head = "f32");
         let parts = if npv || !float_mode then List.tl parts else parts in
-        let ops = List.map (fun s -> parse_op ~npv (String.trim s)) parts in
+        let ops = List.map (fun s -> parse_xop ~npv (String.trim s)) parts in
         dropped := [];
         let st = ref c20_init and toks = ref [] in
-        List.iter (fun (op, _) ->
-          let dumps = c20_mutating op in                  (* the extracted classification used by C20_in_place_frame *)
-          let (st', ob) = c20_step_reg cfg !st op in
-          (match op with C20_Drop r -> dropped := int_of_nat r :: !dropped | _ -> ());
+        List.iter (fun (op, dumps) ->                      (* dumps: c20_mutating, the extracted classification used by C20_in_place_frame *)
+          let (st', ob) = c20_xstep cfg !st op in
+          (match op with C20_X (C20_Drop r) -> dropped := int_of_nat r :: !dropped | _ -> ());
           st := st';
           toks := (obs_str ob ^ (if dumps then dump_str st' else "")) :: !toks) ops;
         String.concat " ; " (List.rev !toks) ^ " # " ^ dump_str !st ^ (if c20_wfb !st then "" else " NOT-WF")
